@@ -162,12 +162,13 @@ class Tup(V):
 class Lst(V):
     """List with known items; ``open`` = may contain further unknown items at the end."""
 
-    __slots__ = ("items", "open", "name")
+    __slots__ = ("items", "open", "name", "opens")
 
-    def __init__(self, items: Iterable[V] = (), open: bool = False, name: str = ""):
+    def __init__(self, items: Iterable[V] = (), open: bool = False, name: str = "", opens=()):
         self.items = tuple(items)
         self.open = open
         self.name = name
+        self.opens = tuple(opens)  # where the unknown further items come from (provenance texts)
 
     @property
     def tags(self):
@@ -177,7 +178,7 @@ class Lst(V):
         return frozenset(out)
 
     def key(self):
-        return ("L", self.open) + tuple(i.key() for i in self.items)
+        return ("L", self.open, self.opens) + tuple(i.key() for i in self.items)
 
     def __repr__(self):
         return f"Lst({list(self.items)!r}{'+...' if self.open else ''})"
@@ -186,16 +187,17 @@ class Lst(V):
 class Dct(V):
     """Abstract dict/set filled by the analysed code: entries keyed by the key's text."""
 
-    __slots__ = ("kind", "entries", "open", "name")
+    __slots__ = ("kind", "entries", "open", "name", "opens")
 
-    def __init__(self, kind: str, entries=None, open: bool = False, name: str = ""):
+    def __init__(self, kind: str, entries=None, open: bool = False, name: str = "", opens=()):
         self.kind = kind  # 'dict' | 'set'
         self.entries: Dict[Any, Tuple[V, V]] = dict(entries or {})  # keytext -> (keyV, valV)
         self.open = open
         self.name = name
+        self.opens = tuple(opens)
 
     def key(self):
-        return ("D", self.kind, self.open) + tuple(
+        return ("D", self.kind, self.open, self.opens) + tuple(
             (k, kv.key(), vv.key()) for k, (kv, vv) in self.entries.items()
         )
 
